@@ -89,6 +89,9 @@ CHECKS = {
  'C18': dict(cat='proof', tech='deductive: postconditions over a ghost page-request log on the real ResultSet.__iter__/next/fetch_next_page/_fetch_all/_enter_list_mode/__getitem__/all and ResponseFuture.result/start_fetching_next_page/_set_result(ROWS)/_set_final_exception, page shapes enumerated as symbolic choices',
              text='All page-size sequences of up to 4 (thorough 5) pages with 0..2 opaque rows, for iteration, list materialisation, manual fetching and a failing page request. The recursion of ResultSet.next is unrolled (bounded dimension); continuous paging is out of scope.',
              ref='DESIGN.md §4 C18'),
+ 'C32': dict(cat='proof', tech='deductive: postconditions over ghost started/finished sets on the real execute_concurrent / execute_concurrent_async and _ConcurrentExecutor / ListResults / GenResults / FutureResults methods, explored under every completion schedule (interference at the points where the condition lock is free); Condition, Future and Session.execute_async are assumed contracts',
+             text='All schedules for up to 3 statements (thorough 4) x 5 behaviours x concurrency x fail-fast are enumerated: bounded in the number of statements, exhaustive in interleavings at lock-free points. Hangs (a wait nobody notifies) are detected. The generator variant relies on A-GEN (generator bodies run eagerly, exceptions surface at the consumer).',
+             ref='DESIGN.md §4 C32'),
 }
 
 NA_REASON = {}
